@@ -376,6 +376,9 @@ def gen_case(r, tier):
         if r.random() < 0.3:
             ops.append({"op": "set_scale", "factor": r.choice([0.3, 0.5, 2.0])})
             ops.append({"op": method, "N": r.randint(10, 25), "Nb": 0})
+        if r.random() < 0.3:
+            st_ = {"op": "step", "n": r.randint(3, 25)}
+            ops = [st_] if (r.random() < 0.5 and sc["knobs"].get("scale", 1) is not None) else ops + [st_]
     sc["iface"] = iface
     sc["fault_rate"] = r.choice([0.0, 0.0, 0.05, 0.15])
     sc["fault_kind"] = r.choice(["nan", "-inf"])
@@ -569,6 +572,8 @@ class MHRun:
         box = {}
 
         def cb(sample, index):
+            if box.get("in_step"):
+                return                        # (transitions of step() calls are delimited by the caller below)
             o = box["o"]
             o.end(np.array(sample, float), None, None)
             o.begin(np.array(sample, float))
@@ -594,6 +599,22 @@ class MHRun:
                     s.scale = new if np.ndim(new) else float(new)
                     o.history = "after_scale_assignment"
                     ctx.fault("scale_reassigned")
+                continue
+            if op["op"] == "step":
+                # the single-transition interface an orchestrator (legacy Gibbs) drives: x_new = sampler.step(x)
+                ctx.log("op", "step", op["n"])
+                o.history = "step_calls"
+                ctx.fault("driven_through_step")
+                x = np.array(s.x0, float)
+                box["in_step"] = True
+                try:
+                    for _ in range(int(op["n"])):
+                        o.begin(x)
+                        x = np.array(s.step(x), float).reshape(-1)
+                        o.end(x, None, None)
+                finally:
+                    box["in_step"] = False
+                    o.active = False
                 continue
             ctx.log("op", op["op"], op["N"], op["Nb"])
             if op["op"] == "sample_adapt":
